@@ -26,6 +26,8 @@ pub struct Case {
     throttle: u8,
     wait_parsed: bool,
     pause_resume: bool,
+    #[serde(default)]
+    sort: bool,
 }
 
 const F_APIDS: [&[u8; 4]; 4] = [b"ECU1", b"ECU2", b"AB\0\0", b"ABC\0"];
@@ -154,7 +156,7 @@ fn check_inner(c: &Case, rep: &mut Rep) -> Result<(), String> {
     let mut pages_total = 0;
 
     let result = (|| -> Result<(), String> {
-        let r = s.cmd(&format!(r#"open {{"files":["{}"]}}"#, path.display()))?;
+        let r = s.cmd(&format!(r#"open {{"files":["{}"],"sort":{}}}"#, path.display(), c.sort))?;
         ensure!(r.starts_with("ok:"), "open failed: {}", r);
         let parsed_before_stream = c.wait_parsed || schedule.is_none();
         if parsed_before_stream {
@@ -362,6 +364,7 @@ fn check_inner(c: &Case, rep: &mut Rep) -> Result<(), String> {
     rep.label_if(pages_total >= 2, "ge2_search_pages");
     rep.label_if(schedule.is_some() && !c.wait_parsed, "stream_created_while_parsing");
     rep.label_if(!filters_active, "no_active_filters");
+    rep.label_if(c.sort, "sorted_session");
     rep.label_if(w0.0 >= refpos.len(), "window_beyond_end");
     rep.nontrivial = (ratio > 0.1 && ratio < 0.9 && w0.0 < refpos.len() && (w0.0 > 0 || w0.1 < refpos.len())) || pages_total >= 2 || window_changes >= 1;
     Ok(())
@@ -402,9 +405,9 @@ pub fn def_sub(tier: Tier) -> Box<dyn DynSub> {
         prop::collection::vec((any::<u16>(), any::<u16>()), 0..3),
         prop::option::weighted(0.6, (prop::collection::vec(simple.prop_map(|mut f| { f.kind = 0; f.enabled = true; f }), 0..2), any::<u16>(), 1u8..12)),
         prop::collection::vec((any::<bool>(), any::<u16>()), 0..3),
-        (0u8..4, any::<bool>(), prop::bool::weighted(0.2)),
+        (0u8..4, any::<bool>(), prop::bool::weighted(0.2), prop::bool::weighted(0.2)),
     )
-        .prop_map(|((spec, repeat), filters, (is_query, binary, win), changes, search, lookups, (throttle, wait_parsed, pause_resume))| Case { spec, repeat, filters, is_query, binary, win, changes, search, lookups, throttle, wait_parsed, pause_resume });
+        .prop_map(|((spec, repeat), filters, (is_query, binary, win), changes, search, lookups, (throttle, wait_parsed, pause_resume, sort))| Case { spec, repeat, filters, is_query, binary, win, changes, search, lookups, throttle, wait_parsed, pause_resume, sort });
     sub("remote_streams", tier.pick(220, 6_000), case, check)
         .rates(&[("query", 0.15), ("window_change", 0.3), ("ge2_search_pages", 0.15), ("stream_created_while_parsing", 0.15), ("no_active_filters", 0.1), ("text_mode", 0.1)])
         .shrink_iters(40)
